@@ -65,12 +65,20 @@ class _TabulationCutoff(object):
     dr = _get_or_none(self._dr_attr, cp_tabulation_section, float)
     cutoff = _get_or_none(self._cutoff_attr, cp_tabulation_section, float)
 
-    if nr and dr and cutoff:
+    # Check the values as given (a value of zero is still a value that has been specified)
+    if not nr is None and nr <= 0:
+      raise ConfigParserException("'{nr}' in [Tabulation] section of potential definition cannot be 0 (zero) or negative.".format(**self._template_dict))
+    if not dr is None and dr <= 0:
+      raise ConfigParserException("'{dr}' in [Tabulation] section of potential definition cannot be 0 (zero) or negative.".format(**self._template_dict))
+    if not cutoff is None and cutoff <= 0:
+      raise ConfigParserException("'{cutoff}' in [Tabulation] section of potential definition cannot be 0 (zero) or negative.".format(**self._template_dict))
+
+    if not nr is None and not dr is None and not cutoff is None:
       raise ConfigParserException("'{cutoff}', '{nr}' and '{dr}' cannot all be spcified in [Tabulation] section of potential definition.".format(**self._template_dict))
-    elif nr and dr:
+    elif not nr is None and not dr is None:
       # Set cutoff
       cutoff = (nr-1)*dr      
-    elif cutoff and dr:
+    elif not cutoff is None and not dr is None:
       # Set nr
       nr = (cutoff/dr) + 1
       nr = int(nr)
@@ -79,8 +87,6 @@ class _TabulationCutoff(object):
 
     if not nr is None and nr <= 0:
       raise ConfigParserException("'{nr}' in [Tabulation] section of potential definition cannot be 0 (zero) or negative.".format(**self._template_dict))
-    if not dr is None and dr <= 0:
-      raise ConfigParserException("'{dr}' in [Tabulation] section of potential definition cannot be 0 (zero) or negative.".format(**self._template_dict))
     if not cutoff is None and cutoff <= 0:
       raise ConfigParserException("'{cutoff}' in [Tabulation] section of potential definition cannot be 0 (zero) or negative.".format(**self._template_dict))
     return nr, cutoff
